@@ -356,7 +356,7 @@ def wInv : Invite :=
 
 /-- the group moves on: a commit from state 0 to state 1 (epoch 2) -/
 def wCommit : Commit :=
-  { gid := 1, fromTok := 0, toTok := 1, toEpoch := 2, members := 2, nameLen := 5, removesMe := false }
+  { gid := 1, nid := 101, fromTok := 0, toTok := 1, toEpoch := 2, members := 2, nameLen := 5, removesMe := false }
 
 /-- a client that received the invitation under wrapper 10, accepted it and followed the group to epoch 2 -/
 def cJoined (b : Backend) : Client :=
@@ -368,7 +368,7 @@ def cJoined (b : Backend) : Client :=
     able to decrypt what the group sends now -/
 theorem cJoined_ok (b : Backend) :
     isActive (cJoined b) 1 = true ∧ ((findGroup (cJoined b).store 1).map (·.epoch)) = some 2 ∧
-    alookup 1 (cJoined b).mls = some { tok := 1, epoch := 2, members := 2 } ∧ canDecrypt (cJoined b) 1 1 = true := by
+    alookup 1 (cJoined b).mls = some { tok := 1, epoch := 2, members := 2 } ∧ canDecrypt (cJoined b) 1 101 1 = true := by
   cases b <;> decide
 
 /-- **C16_witness_replay_pending.**  The SAME welcome delivered under a NEW wrapper id (11) to the Active
@@ -387,7 +387,7 @@ theorem C16_witness_replay_accept (b : Backend) :
     let c1 := (apply (cJoined b) (.process 11 wInv)).1
     let c2 := (apply c1 (.accept wInv)).1
     isActive c2 1 = true ∧ alookup 1 c2.mls = some { tok := 0, epoch := 1, members := 2 } ∧
-    canDecrypt c2 1 1 = false := by
+    canDecrypt c2 1 101 1 = false := by
   cases b <;> decide
 
 /-- **C16_witness_replay_decline.**  Declining the replayed welcome instead sets the group Inactive. -/
@@ -395,6 +395,21 @@ theorem C16_witness_replay_decline (b : Backend) :
     let c1 := (apply (cJoined b) (.process 11 wInv)).1
     let c2 := (apply c1 (.decline wInv)).1
     ((findGroup c2.store 1).map (·.state)) = some 1 ∧ isActive c2 1 = false := by
+  cases b <;> decide
+
+/-- **C16_witness_foreign_creator.**  Somebody who is NOT in the group but knows its MLS group id creates
+    a new MLS group with that id (own group data: nostr group id 777, another name) and invites the
+    member.  Merely PROCESSING that welcome — no consent — overwrites the Active group's record with the
+    foreign group data: the real group's events are no longer routed to it (`canDecrypt` false although
+    the MLS state is intact).  Accepting it replaces the MLS state by the foreign group's. -/
+theorem C16_witness_foreign_creator (b : Backend) :
+    let forged : Invite := { wInv with rid := some 9, nid := 777, nameLen := 9, tok := 50, welcomer := 2 }
+    let c1 := (apply (cJoined b) (.process 30 forged)).1
+    let c2 := (apply c1 (.accept forged)).1
+    (apply (cJoined b) (.process 30 forged)).2 = .welcome (welcomeOf forged 9 30) ∧
+    ((findGroup c1.store 1).map (fun g => (g.state, g.nid, g.nameLen))) = some (2, 777, 9) ∧
+    alookup 1 c1.mls = some { tok := 1, epoch := 2, members := 2 } ∧ canDecrypt c1 1 101 1 = false ∧
+    isActive c2 1 = true ∧ alookup 1 c2.mls = some { tok := 50, epoch := 1, members := 2 } := by
   cases b <;> decide
 
 /-- the full-strength statement is false of the code -/
